@@ -37,8 +37,24 @@ struct P<'a> {
 }
 impl<'a> P<'a> {
     fn ws(&mut self) {
-        while self.i < self.s.len() && self.s[self.i].is_whitespace() {
-            self.i += 1;
+        loop {
+            while self.i < self.s.len() && self.s[self.i].is_whitespace() {
+                self.i += 1;
+            }
+            // TypeScript comments are white-space: what they hide is not declared
+            if self.i + 1 < self.s.len() && self.s[self.i] == '/' && self.s[self.i + 1] == '/' {
+                while self.i < self.s.len() && self.s[self.i] != '\n' {
+                    self.i += 1;
+                }
+            } else if self.i + 1 < self.s.len() && self.s[self.i] == '/' && self.s[self.i + 1] == '*' {
+                self.i += 2;
+                while self.i + 1 < self.s.len() && !(self.s[self.i] == '*' && self.s[self.i + 1] == '/') {
+                    self.i += 1;
+                }
+                self.i = (self.i + 2).min(self.s.len());
+            } else {
+                break;
+            }
         }
     }
     fn eat(&mut self, c: char) -> bool {
@@ -202,6 +218,43 @@ pub fn balanced(s: &str) -> bool {
 }
 
 /// declarations of `export namespace <ns> { ... }`
+/// the text without TypeScript comments (string literals kept)
+pub fn strip_ts_comments(src: &str) -> String {
+    let cs: Vec<char> = src.chars().collect();
+    let mut out = String::new();
+    let mut i = 0;
+    while i < cs.len() {
+        let c = cs[i];
+        if c == '"' || c == '\'' {
+            out.push(c);
+            i += 1;
+            while i < cs.len() && cs[i] != c && cs[i] != '\n' {
+                out.push(cs[i]);
+                i += 1;
+            }
+            if i < cs.len() {
+                out.push(cs[i]);
+                i += 1;
+            }
+        } else if c == '/' && i + 1 < cs.len() && cs[i + 1] == '/' {
+            while i < cs.len() && cs[i] != '\n' {
+                i += 1;
+            }
+        } else if c == '/' && i + 1 < cs.len() && cs[i + 1] == '*' {
+            i += 2;
+            while i + 1 < cs.len() && !(cs[i] == '*' && cs[i + 1] == '/') {
+                i += 1;
+            }
+            i = (i + 2).min(cs.len());
+            out.push(' ');
+        } else {
+            out.push(c);
+            i += 1;
+        }
+    }
+    out
+}
+
 pub fn parse_namespace(gen: &str, ns: &str) -> Result<Vec<Decl>, String> {
     let cs: Vec<char> = gen.chars().collect();
     let head = format!("export namespace {ns}");
@@ -404,7 +457,7 @@ impl Prop for C18 {
         "C18"
     }
     fn rule(&self) -> String {
-        "the constructed-type shapes of C02 (quick: n<=2 components over the 14-type alphabet × optionality × marker positions, long lists, container chains to depth 3, OF/primitive assignments, mutual recursion 2-cycles) and the extension layouts of C05 (r<=2, additions <=4 with groups), each with and without EXTENSIBILITY IMPLIED, compiled with the TypeScript backend; output parsed by a structural TypeScript parser (namespaces, imports, export type/enum/const, object / array / union / literal types, index signatures, delimiter and quote balance). Oracle (sem::ts): exactly one export per type assignment, named by hyphen→underscore, inside `export namespace <Module>`; object members in order with `?` exactly for OPTIONAL/DEFAULT; arrays for SEQUENCE OF / SET OF; anonymous ENUMERATED as string literals; CHOICE = union of single-key objects in order; index signature exactly for extensible SEQUENCE/SET; every referenced name declared or imported (imported types under mixed-case, all-upper-case, digit and hyphen names); output balanced, also with list values of length 0..2 next to the types. Non-trivial: compiled, parsed and compared.".into()
+        "(plus: ASN.1 comments of 4 styles x 2 texts after every item of an ENUMERATED / SEQUENCE / CHOICE and before every assignment: declarations equal those of the comment-free module, TypeScript comments being white-space) the constructed-type shapes of C02 (quick: n<=2 components over the 14-type alphabet × optionality × marker positions, long lists, container chains to depth 3, OF/primitive assignments, mutual recursion 2-cycles) and the extension layouts of C05 (r<=2, additions <=4 with groups), each with and without EXTENSIBILITY IMPLIED, compiled with the TypeScript backend; output parsed by a structural TypeScript parser (namespaces, imports, export type/enum/const, object / array / union / literal types, index signatures, delimiter and quote balance). Oracle (sem::ts): exactly one export per type assignment, named by hyphen→underscore, inside `export namespace <Module>`; object members in order with `?` exactly for OPTIONAL/DEFAULT; arrays for SEQUENCE OF / SET OF; anonymous ENUMERATED as string literals; CHOICE = union of single-key objects in order; index signature exactly for extensible SEQUENCE/SET; every referenced name declared or imported (imported types under mixed-case, all-upper-case, digit and hyphen names); output balanced, also with list values of length 0..2 next to the types. Non-trivial: compiled, parsed and compared.".into()
     }
     fn enumerate(&self, tier: Tier, seed: u64) -> Vec<Case> {
         let mut out = vec![];
@@ -428,6 +481,17 @@ impl Prop for C18 {
         }
         // value assignments next to the types: the output stays balanced
         out.push(Case { ty: stub.clone(), implied: false, others: vec![], extra: "values".into() });
+        // ASN.1 comments after any item of an ENUMERATED / SEQUENCE / CHOICE / before an assignment: the declarations
+        // are those of the comment-free module (comments become TypeScript comments, which must hide nothing)
+        for kind in ["enum", "seq", "choice", "before"] {
+            for pos in 0..4usize {
+                for style in ["line", "inline", "block", "block-2-lines"] {
+                    for text in ["plain", "brace-quote"] {
+                        out.push(Case { ty: stub.clone(), implied: false, others: vec![], extra: format!("comments:{kind}:{pos}:{style}:{text}") });
+                    }
+                }
+            }
+        }
         out
     }
     fn check(&self, c: &Case) -> CaseResult {
@@ -453,6 +517,49 @@ impl Prop for C18 {
                 }
             }
             return CaseResult { discs, nontrivial: true, outcome: "imports".into(), skipped: None };
+        }
+        if let Some(spec) = c.extra.strip_prefix("comments:") {
+            let f: Vec<&str> = spec.split(':').collect();
+            let (kind, pos, style, text) = (f[0], f[1].parse::<usize>().unwrap_or(0), f[2], f[3]);
+            let words = if text == "plain" { "stop here" } else { "don't } stop \" here {" };
+            let comment = match style {
+                "line" => format!(" -- {words}\n"),
+                "inline" => format!(" -- {words} -- "),
+                "block" => format!(" /* {words} */ "),
+                _ => format!(" /* {words}\n   and go on */ "),
+            };
+            let items = |names: [&str; 4], with: bool| -> String {
+                names.iter().enumerate().map(|(i, n)| format!("{n}{}{}", if i < 3 { "," } else { "" }, if with && i == pos { comment.as_str() } else { " " })).collect::<Vec<_>>().join("")
+            };
+            let body = |with: bool| -> String {
+                let e = items(["red", "red-amber", "green", "amber"], with && kind == "enum");
+                let q = items(["a INTEGER", "b BOOLEAN OPTIONAL", "c Colour", "d NULL"], with && kind == "seq");
+                let h = items(["x NULL", "y INTEGER", "z Colour", "w BOOLEAN"], with && kind == "choice");
+                let b = |i: usize| if with && kind == "before" && i == pos { comment.trim_start().to_string() + "\n" } else { String::new() };
+                format!("{}Colour ::= ENUMERATED {{ {e} }}\n{}Sq ::= SEQUENCE {{ {q} }}\n{}Ch ::= CHOICE {{ {h} }}\n{}Lst ::= SEQUENCE OF Colour\n", b(0), b(1), b(2), b(3))
+            };
+            let with = module("M", "AUTOMATIC", false, &body(true));
+            let without = module("M", "AUTOMATIC", false, &body(false));
+            let key = |k: &str| format!("ts|comments|at={kind}|pos={}|style={style}|text={text}|kind={k}", if pos == 3 { "last" } else if pos == 0 { "first" } else { "inner" });
+            let (g1, g0) = match (compile_ts(&[with.clone()]), compile_ts(&[without.clone()])) {
+                (Outcome::Ok { generated: g1, .. }, Outcome::Ok { generated: g0, .. }) => (g1, g0),
+                (a, b) => return CaseResult { discs: vec![Disc::new(key(&format!("rejected:{}:{}", a.class(), b.class())), format!("{}\n{}\n{with}", a.brief(), b.brief()))], nontrivial: false, outcome: "rejected".into(), skipped: None },
+            };
+            let mut discs = vec![];
+            if !balanced(&strip_ts_comments(&g1)) {
+                discs.push(Disc::new(key("unbalanced"), format!("delimiters are not balanced outside comments\n{with}\n--- generated ---\n{g1}")));
+            } else {
+                match (parse_namespace(&g1, "M"), parse_namespace(&g0, "M")) {
+                    (Ok(d1), Ok(d0)) => {
+                        if format!("{d1:?}") != format!("{d0:?}") {
+                            discs.push(Disc::new(key("declarations-differ"), format!("the declarations differ from those of the module without the comment\nwith: {d1:?}\nwithout: {d0:?}\n{with}\n--- generated ---\n{g1}")));
+                        }
+                    }
+                    (Err(e), _) => discs.push(Disc::new(key("unparsable"), format!("{e}\n{with}\n--- generated ---\n{g1}"))),
+                    (_, Err(e)) => discs.push(Disc::new(key("base-unparsable"), format!("{e}\n{without}\n--- generated ---\n{g0}"))),
+                }
+            }
+            return CaseResult { discs, nontrivial: true, outcome: "comments".into(), skipped: None };
         }
         if c.extra == "values" {
             let m = "M DEFINITIONS AUTOMATIC TAGS ::= BEGIN\nLst ::= SEQUENCE OF INTEGER\nnone Lst ::= { }\none Lst ::= { 1 }\ntwo Lst ::= { 1, 2 }\nSq ::= SEQUENCE { a INTEGER, l Lst }\nsq Sq ::= { a 1, l { } }\nCh ::= CHOICE { l Lst, n NULL }\nch Ch ::= l:{ }\nEND\n".to_string();
